@@ -48,10 +48,20 @@ inductive Named {α : Type} (R : α → α → Prop) : List (String × α) → L
   | cons {n : String} {a b : α} {l₁ l₂ : List (String × α)} :
       R a b → Named R l₁ l₂ → Named R ((n, a) :: l₁) ((n, b) :: l₂)
 
-/-- two worlds with the same names bound to content-equal maps and files; everything else equal -/
+/-- HEALPix-format files: identical, or two EXPLICIT files with the same header holding the same
+    (pixel, value) pairs in another order (`write(format='healpix')` lists the valid pixels in
+    storage order, which content-equal maps need not share) -/
+def HpSame (f g : HpFile) : Prop :=
+  f = g ∨ ∃ so dt s pix vals pix' vals', f = .explicit so dt s pix vals ∧
+    g = .explicit so dt s pix' vals' ∧ pix.length = vals.length ∧ pix'.length = vals'.length ∧
+    (pix.zip vals).Perm (pix'.zip vals')
+
+/-- two worlds with the same names bound to content-equal maps and files (HEALPix-format files:
+    the same pixel ↦ value association); everything else equal -/
 def World.SameW (w₁ w₂ : World) : Prop :=
   Named EntSame w₁.pool w₂.pool ∧ Named FileObj.SameF w₁.files w₂.files ∧
-    w₁.packed = w₂.packed ∧ w₁.mocs = w₂.mocs ∧ w₁.hpfiles = w₂.hpfiles ∧ w₁.metas = w₂.metas
+    w₁.packed = w₂.packed ∧ w₁.mocs = w₂.mocs ∧ Named HpSame w₁.hpfiles w₂.hpfiles ∧
+    w₁.metas = w₂.metas
 
 /-! ### basic facts -/
 
@@ -321,9 +331,16 @@ theorem FileObj.SameF.symm {f g : FileObj} (h : f.SameF g) : g.SameF f := by
     rw [← h1, ← h2, ← h4]
     exact (hs kind hkind).symm
 
+theorem HpSame.refl (f : HpFile) : HpSame f f := .inl rfl
+
+theorem HpSame.symm {f g : HpFile} (h : HpSame f g) : HpSame g f := by
+  rcases h with rfl | ⟨so, dt, s, pix, vals, pix', vals', rfl, rfl, h1, h2, hp⟩
+  · exact .inl rfl
+  · exact .inr ⟨so, dt, s, pix', vals', pix, vals, rfl, rfl, h2, h1, hp.symm⟩
+
 theorem World.SameW.symm {w₁ w₂ : World} (h : w₁.SameW w₂) : w₂.SameW w₁ :=
   ⟨h.1.symm fun _ _ => EntSame.symm, h.2.1.symm fun _ _ => FileObj.SameF.symm, h.2.2.1.symm,
-    h.2.2.2.1.symm, h.2.2.2.2.1.symm, h.2.2.2.2.2.symm⟩
+    h.2.2.2.1.symm, h.2.2.2.2.1.symm fun _ _ => HpSame.symm, h.2.2.2.2.2.symm⟩
 
 /-- **looking a name up in related good worlds**: both fail, or both resolve (an owning map or a
     view) to content-equal maps -/
@@ -347,7 +364,8 @@ theorem World.SameW.refl {w : World} (g : w.Good) : w.SameW w :=
       cases hv : e.2.view with
       | none => exact .inl ⟨hv, MapObj.SameC.refl (g.1 e ‹_› hv).1⟩
       | some x => exact .inr ⟨(by rw [hv]; exact fun h => nomatch h), rfl⟩,
-    Named.refl_on fun e he => FileObj.SameF.refl (g.2.2 e he).1, rfl, rfl, rfl, rfl⟩
+    Named.refl_on fun e he => FileObj.SameF.refl (g.2.2 e he).1, rfl, rfl,
+    Named.refl HpSame.refl _, rfl⟩
 
 /-! ### storing in related worlds -/
 
@@ -396,9 +414,17 @@ theorem World.SameW.with_mocs {w₁ w₂ : World} (h : w₁.SameW w₂) (ms : Li
     ({ w₁ with mocs := ms } : World).SameW { w₂ with mocs := ms } :=
   ⟨h.1, h.2.1, h.2.2.1, rfl, h.2.2.2.2.1, h.2.2.2.2.2⟩
 
-theorem World.SameW.with_hpfiles {w₁ w₂ : World} (h : w₁.SameW w₂) (fs : List (String × HpFile)) :
-    ({ w₁ with hpfiles := fs } : World).SameW { w₂ with hpfiles := fs } :=
-  ⟨h.1, h.2.1, h.2.2.1, h.2.2.2.1, rfl, h.2.2.2.2.2⟩
+theorem World.SameW.hpfiles_insert {w₁ w₂ : World} (h : w₁.SameW w₂) (n : String) {f g : HpFile}
+    (hf : HpSame f g) :
+    ({ w₁ with hpfiles := (n, f) :: w₁.hpfiles.filter (·.1 != n) } : World).SameW
+      { w₂ with hpfiles := (n, g) :: w₂.hpfiles.filter (·.1 != n) } :=
+  ⟨h.1, h.2.1, h.2.2.1, h.2.2.2.1, h.2.2.2.2.1.insert n hf, h.2.2.2.2.2⟩
+
+theorem World.SameW.hpfile {w₁ w₂ : World} (h : w₁.SameW w₂) (n : String) :
+    ((w₁.hpfiles.find? (·.1 == n)).map (·.2) = none ∧ (w₂.hpfiles.find? (·.1 == n)).map (·.2) = none) ∨
+    ∃ f g, (w₁.hpfiles.find? (·.1 == n)).map (·.2) = some f ∧
+      (w₂.hpfiles.find? (·.1 == n)).map (·.2) = some g ∧ HpSame f g :=
+  h.2.2.2.2.1.find n
 
 theorem World.SameW.with_packed {w₁ w₂ : World} (h : w₁.SameW w₂) (pw : PackedWorld) :
     ({ w₁ with packed := pw } : World).SameW { w₂ with packed := pw } :=
@@ -440,9 +466,33 @@ theorem ExR.mono {α β : Type} {R S : α → β → Prop} {x : Except Err α} {
     (h : ExR R x y) (hRS : ∀ a b, R a b → S a b) : ExR S x y := by
   cases x <;> cases y <;> first | exact h | exact hRS _ _ h
 
+/-- the error a computation raises, if any -/
+def errOf {α : Type} : Except Err α → Option Err
+  | .ok _ => none
+  | .error e => some e
+
+/-- comparing two computations: the error first, then the values -/
+theorem ExR.of_errOf {α β : Type} {R : α → β → Prop} {x : Except Err α} {y : Except Err β}
+    (he : errOf x = errOf y) (hok : ∀ a b, x = .ok a → y = .ok b → R a b) : ExR R x y := by
+  cases x <;> cases y
+  · cases he; rfl
+  · cases he
+  · cases he
+  · exact hok _ _ rfl rfl
+
+theorem errOf_bind {α β : Type} (x : Except Err α) (f : α → Except Err β) :
+    errOf (x >>= f) = match x with
+      | .error e => some e
+      | .ok a => errOf (f a) := by
+  cases x <;> rfl
+
+theorem errOf_of_ExR {α β : Type} {R : α → β → Prop} {x : Except Err α} {y : Except Err β}
+    (h : ExR R x y) : errOf x = errOf y := by
+  rcases h.cases with ⟨a, b, rfl, rfl, _⟩ | ⟨e, rfl, rfl⟩ <;> rfl
+
 /-- an operation on a looked-up map in related good worlds: it suffices to treat the case where
     both lookups succeed, with content-equal results -/
-theorem sim_withMap {w₁ w₂ : World} {a : Args} {k₁ k₂ : MapObj → World × String}
+theorem same_withMap {w₁ w₂ : World} {a : Args} {k₁ k₂ : MapObj → World × String}
     (h : w₁.SameW w₂) (g₁ : w₁.Good) (g₂ : w₂.Good)
     (hk : ∀ n m₁ m₂, a.pos.headD "" = n → w₁.get? n = some m₁ → w₂.get? n = some m₂ →
       m₁.SameC m₂ → m₁.Ok → m₂.Ok → SimR (k₁ m₁) (k₂ m₂)) :
